@@ -5,6 +5,7 @@ mod crashx;
 mod envx;
 mod graphx;
 mod hdlc;
+mod maps;
 mod repeatx;
 mod ring;
 mod subjects;
@@ -36,6 +37,7 @@ fn main() {
             "repeatx" => repeatx::replay_json(&v["replay"]),
             "hdlc" => hdlc::replay_json(&v["replay"]),
             "crashx" => crashx::replay_json(&v["replay"]),
+            "maps" => maps::replay_json(&v["replay"]),
             e => Err(format!("unknown engine {e:?}")),
         };
         match r {
@@ -62,6 +64,7 @@ fn main() {
         "repeat" => repeatx::run(tier),
         "hdlc" => hdlc::run(tier, shard),
         "crash" => crashx::run(tier, shard),
+        "maps" => maps::run(tier, shard),
         _ => usage(),
     };
     rep.emit();
